@@ -156,7 +156,15 @@ def dead_reckoning(chk, prog):
 def angvel(chk, prog):
     f = prog.func(QUAT + "::QuaternionArray.angular_velocities")
     chk.touch(f)
-    it = Interp(prog, oracle=lambda c, i: False if c.op in ("<=", "<") else None)
+    gates = []
+
+    def oracle(c, i):
+        if c.op in ("isclose", "allclose"):
+            tol = c.text if isinstance(c.text, tuple) and c.text and c.text[0] == "tol" else ("tol", 1e-5, 1e-8)
+            gates.append((str(c.lhs)[:40], str(c.rhs)[:40], tol[1], tol[2]))
+            return False
+        return False if c.op in ("<=", "<") else None
+    it = Interp(prog, oracle=oracle)
     q0, q1, q2 = free_quat("qa"), free_quat("qb"), free_quat("qc")
     dt = P.sym("dt")
     Q = np.vstack([q0, q1, q2])
@@ -168,6 +176,15 @@ def angvel(chk, prog):
         w1 = hamilton_ref(conj(q1), q2)[1:] * 2 / dt
         return all_of(eq(got[0], w0, "w[0]"), eq(got[1], w1, "w[1]"))
     chk.ob("ANGVEL", f.ref, "angular_velocities(dt)[t] == (2/dt) vec(conj(q_t) (x) q_{t+1})", law, module=QUAT, function=f.qname, construct="angular velocity formula", line=f.node.lineno)
+    # the formula must hold for arbitrarily slow rotations: a tolerance gate between samples replaces it on a band of genuine motion
+    wide = [g for g in gates if (g[2] or 0) > 1e-12 or (g[3] or 0) > 1e-12]
+    if wide:
+        g = wide[0]
+        why = "np.isclose(%s, %s) (rtol=%g, atol=%g) between consecutive samples decides the result: every rotation step smaller than the tolerance is treated as `no motion`" % g
+        chk.record("ANGVEL.gate", f.ref, "no tolerance gate between consecutive samples", verdict="VIOLATION", detail=why)
+        chk.finding("ANGVEL.gate", QUAT, f.qname, "tolerance gate on consecutive samples", why, line=f.node.lineno)
+    else:
+        chk.record("ANGVEL.gate", f.ref, "no tolerance gate between consecutive samples decides the rate (%d exact comparisons)" % len(gates))
 
 
 def canaries(chk, prog):
@@ -214,6 +231,10 @@ def run(chk, prog, tier):
     angular_rate(chk, prog, range(0, 6) if tier == "thorough" else range(0, 4))
     dead_reckoning(chk, prog)
     angvel(chk, prog)
+    # the constructor route reaches the same integrator with the requested method and order (same rule as C06's PROTOCOL)
+    from props.c06 import protocol
+    protocol(chk, prog, prog.cls("ahrs/filters/angular.py::AngularRate"), ["update"])
+    chk.require_count("PROTOCOL", 1)
     chk.require_count("OMEGA.action", 5)
     chk.require_count("STEP.null-acc", 3)
     canaries(chk, prog)
